@@ -33,6 +33,7 @@ EXCLUDE_R8 = True
 # compiled sampler cannot be constructed when the reference sampler has a jump network but zero jumps (vacancy on a site without jumps):
 # MonteCarloSampler_param builds 1-D float arrays for jump_ij/jump_dx.  While the flag is set such setups use the sampler without jump network.
 EXCLUDE_ZEROJUMPS = True
+_r8_seen = []
 
 
 def _active(tag, case):
@@ -101,10 +102,16 @@ def reference_for(b, case, excluded):
 
 def jit_transitions(J, case, excluded):
     """transitions of the compiled sampler, or None when the call fails exactly like R8 and R8 is excluded"""
+    if _r8_seen and _active("R8", case):
+        # numba re-runs the (failing) compilation on every call, ~1 s each: once the failure was observed in this process
+        # the call is not repeated while R8 is excluded
+        excluded["R8"] += 1
+        return None
     try:
         ij, Q, dx = J.transitions()
     except AttributeError as e:
         if "np.Inf" in str(e) and _active("R8", case):
+            _r8_seen.append(True)
             excluded["R8"] += 1
             return None
         raise Violation("compiled sampler transitions() raised AttributeError: %s" % str(e)[:300])
@@ -340,11 +347,10 @@ def check(case):
     return check_history(case)
 
 
-def all_cases(quick):
-    out = [{"kind": "all", "setup": s} for s in cx.small_setups(max_sites=9, jn=True) if len(cx.build(s).free_sites()) <= 8]
-    if quick:
-        out = [c for c in out if len(cx.build(c["setup"]).free_sites()) <= 7]
-    return out
+def all_cases(ctx):
+    step = 2 if ctx.quick else 1
+    out = [{"kind": "all", "setup": s} for s in cx.small_setups(max_sites=9, jn=True, select=lambda n: n % step == 0 and ctx.mine(n // step))]
+    return [c for c in out if len(cx.build(c["setup"]).free_sites()) <= (7 if ctx.quick else 8)]
 
 
 def run(ctx):
@@ -355,10 +361,9 @@ def run(ctx):
         return info
     ctx.corpus(counted)
     ctx.known(check)
-    ex = all_cases(ctx.quick)
-    ctx.cases([c for i, c in enumerate(ex) if ctx.mine(i)], counted, label="all-occupations")
-    ctx.note("bounded_exhaustive", "%d catalogue supercells (<=8 free sites, with and without vacancy): every occupation, every pair trial, every pair update and its inverse, transitions" % len(ex))
-    ctx.given(cases(max_sites=14), counted, quick=240, thorough=6000)
+    ctx.cases(all_cases(ctx), counted, label="all-occupations")
+    ctx.note("bounded_exhaustive", "catalogue supercells (<=8 free sites; quick: every second, <=7), with and without vacancy: every occupation, every pair trial, every pair update and its inverse, transitions")
+    ctx.given(cases(max_sites=14), counted, quick=200, thorough=6000)
     if not ctx.quick:
         ctx.given(cases(max_sites=24), counted, quick=1, thorough=1500, salt=1)
 
